@@ -80,7 +80,7 @@ Ground(T) ==
     [] OTHER -> T
 
 -----------------------------------------------------------------------------
-RECURSIVE Params(_, _), RawSpecs(_, _), EffOpts(_, _)
+RECURSIVE Params(_, _), EffOpts(_, _)
 
 (* type parameters of class i: the variables free in its base subscription, then those it declares, each once *)
 Params(prog, i) ==
@@ -128,14 +128,35 @@ MergeBases(acc, new) ==
        MergeBases(IF S = {} THEN Append(acc, f) ELSE [acc EXCEPT ![CHOOSE j \in S : TRUE] = f], Tail(new))
 Mix(d) == IF "mix" \in DOMAIN d THEN d.mix ELSE 0      \* index of a second (non-generic) pane base, 0 = none
 
-(* specs collected along the MRO, before the keyword-only reordering *)
+(* the linearisation of class i for the shapes generated here: single chains, and two pane bases whose own    *)
+(* linearisations share at most a common tail (unrelated bases, or a diamond over a shared pane ancestor)     *)
+RECURSIVE Mro(_, _)
+Mro(prog, i) ==
+  LET d == prog[i] IN
+  IF d.base = 0 THEN <<i>>
+  ELSE IF Mix(d) = 0 THEN <<i>> \o Mro(prog, d.base)
+  ELSE LET a == Mro(prog, d.base)  b == Mro(prog, Mix(d))
+           common == Range(a) \cap Range(b) IN
+       <<i>> \o SelectSeq(a, LAMBDA x : x \notin common) \o SelectSeq(b, LAMBDA x : x \notin common)
+             \o SelectSeq(a, LAMBDA x : x \in common)
+RevSeq(s) == [k \in DOMAIN s |-> s[Len(s) + 1 - k]]
+
+(* specs collected along the MRO, before the keyword-only reordering.  With one pane base the specs of the    *)
+(* base are taken over (and substituted); with two, the classes of the linearisation are visited from the     *)
+(* far end and each contributes the specs of the names IT declares (as they were fixed when it was defined)   *)
+RECURSIVE RawSpecs(_, _), Baked(_, _), FoldBases(_, _, _)
 RawSpecs(prog, i) ==
   LET d == prog[i]
       frombase == IF d.base = 0 THEN <<>>
                   ELSE LET bs == RawSpecs(prog, d.base) env == BaseEnv(prog, i) IN
                        [j \in DOMAIN bs |-> [bs[j] EXCEPT !.t = Subst(bs[j].t, env)]]
-      inherited == IF Mix(d) = 0 THEN frombase ELSE MergeBases(RawSpecs(prog, Mix(d)), frombase)
+      inherited == IF Mix(d) = 0 THEN frombase ELSE FoldBases(prog, <<>>, RevSeq(Tail(Mro(prog, i))))
   IN MergeSpecs(inherited, OwnSpecs(prog, i))
+Baked(prog, j) ==
+  LET names == {prog[j].own[k].n : k \in DOMAIN prog[j].own} IN
+  SelectSeq(RawSpecs(prog, j), LAMBDA f : f.n \in names)
+FoldBases(prog, acc, js) ==
+  IF js = <<>> THEN acc ELSE FoldBases(prog, MergeBases(acc, Baked(prog, Head(js))), Tail(js))
 
 Reorder(specs) == SelectSeq(specs, LAMBDA f : f.kw = "F") \o SelectSeq(specs, LAMBDA f : f.kw = "T")
 
